@@ -1,5 +1,6 @@
 """C03 - every outbound payment reaches a truthful terminal outcome (structural part)."""
 from engine import *
+import ordimpls
 import provenance
 
 OP = 'lightning::ln::outbound_payment::OutboundPayments::'
@@ -401,4 +402,5 @@ RULES = [
 	('03.v', 'field-versus-field comparisons (a received value against a limit, an id against an id) are the reviewed ones: same fields, same operator (rules/provenance.py)', lambda F: provenance.cmps_for_property(F, 'C03', '03.v')),
 	('03.s', 'no reviewed function gained a short-circuiting iterator adaptor (find / find_map / take / position ...: an every-element walk that stops at the first match; rules/provenance.py)', lambda F: provenance.sc_for_property(F, 'C03', '03.s')),
 	('03.y', 'no reviewed function gained a swallowed error (the Result of a fallible in-crate call dropped; rules/provenance.py)', lambda F: provenance.dr_for_property(F, 'C03', '03.y')),
+	('03.o', 'hand-written eq / cmp / partial_cmp / hash impls in this property\'s files: same field on both sides, reviewed direction, no reviewed key lost, hash within eq (rules/ordimpls.py)', lambda F: ordimpls.for_property(F, 'C03', '03.o')),
 ]
